@@ -1,6 +1,8 @@
 /- Helper lemmas for C07: the generated index expression against `Spec.pairs`. -/
 import Kodama.Spec.Pairs
 import Kodama.Generated.Condensed
+import Kodama.Model.Mat
+import Kodama.Lemmas.Except
 namespace Kodama
 open Spec
 
@@ -81,5 +83,65 @@ theorem mem_pairsUpTo (n m : Nat) (p : Nat × Nat) (h : p ∈ pairsUpTo n m) (hm
     · simp only [rowPairs, List.mem_map, List.mem_range] at h
       obtain ⟨k, hk, rfl⟩ := h
       simp; omega
+
+theorem idxM_eq_idxN (chk : Bool) (n r c : Nat) (hrc : r < c) (hcn : c < n)
+    (hn : n < 2147483648) : Gen.idxM chk n r c = .ok (Gen.idxN n r c) := by
+  have h1 : 2 * n < usizeMod := by unfold usizeMod; omega
+  have h2 : r ≤ 2 * n := by omega
+  have h3 : 3 ≤ 2 * n - r := by omega
+  have hA : (2 * n - r - 3) * r < 2147483648 * 2147483648 * 2 := by
+    have : 2 * n - r - 3 < 2 * 2147483648 := by omega
+    have hr : r < 2147483648 := by omega
+    calc (2 * n - r - 3) * r ≤ (2 * 2147483648) * r := Nat.mul_le_mul_right r (by omega)
+      _ < (2 * 2147483648) * 2147483648 := Nat.mul_lt_mul_of_pos_left hr (by omega)
+      _ = 2147483648 * 2147483648 * 2 := by omega
+  have h4 : (2 * n - r - 3) * r < usizeMod := by unfold usizeMod; omega
+  have h5 : (2 * n - r - 3) * r / 2 + c < usizeMod := by unfold usizeMod; omega
+  have h6 : 1 ≤ (2 * n - r - 3) * r / 2 + c := by omega
+  simp only [Gen.idxM, Gen.idxN, umul, usub, uadd, udiv, h1, h2, h3, h4, if_true,
+    bind, Except.bind]
+  simp [h5, h6, pure, Except.pure]
+
+
+theorem idxN_lt (n r c : Nat) (hrc : r < c) (hcn : c < n) : 2 * Gen.idxN n r c + 2 ≤ n * (n - 1) := by
+  rw [idxN_eq n r c hrc hcn]
+  have h := pairs_get n r c hrc hcn
+  have hlt := (List.getElem?_eq_some_iff.mp h).1
+  have hl := pairs_length n
+  omega
+
+/-- A matrix of valid shape for `2 ≤ n < 2^31` observations. -/
+structure Mat.Valid {α : Type} (M : Mat α) : Prop where
+  two_le : 2 ≤ M.n
+  small : M.n < 2147483648
+  size : 2 * M.data.size = M.n * (M.n - 1)
+
+theorem Mat.idx_ok {α : Type} (chk : Bool) (M : Mat α) (r c : Nat) (hrc : r < c) (hcn : c < M.n)
+    (hn : M.n < 2147483648) : M.idx chk r c = .ok (Gen.idxN M.n r c) := by
+  have hd : Gen.idxDebugOk M.n r c = true := by simp [Gen.idxDebugOk, hrc, hcn]
+  unfold Mat.idx
+  rw [idxM_eq_idxN chk M.n r c hrc hcn hn]
+  cases chk <;> simp [guard', hd, bind, Except.bind, pure, Except.pure]
+
+theorem Mat.get_ok {α : Type} (chk : Bool) (M : Mat α) (hv : M.Valid) (r c : Nat) (hrc : r < c)
+    (hcn : c < M.n) : ∃ v, M.get chk r c = .ok v := by
+  unfold Mat.get
+  rw [Mat.idx_ok chk M r c hrc hcn hv.small]
+  have h1 := idxN_lt M.n r c hrc hcn
+  have h2 := hv.size
+  have hlt : Gen.idxN M.n r c < M.data.size := by omega
+  refine ⟨M.data[Gen.idxN M.n r c], ?_⟩
+  simp [bind, Except.bind, aget, hlt]
+
+theorem Mat.set_ok {α : Type} (chk : Bool) (M : Mat α) (hv : M.Valid) (r c : Nat) (v : α)
+    (hrc : r < c) (hcn : c < M.n) :
+    ∃ M', M.set chk r c v = .ok M' ∧ M'.n = M.n ∧ M'.acc = M.acc ∧ M'.data.size = M.data.size := by
+  unfold Mat.set
+  rw [Mat.idx_ok chk M r c hrc hcn hv.small]
+  have h1 := idxN_lt M.n r c hrc hcn
+  have h2 := hv.size
+  have hlt : Gen.idxN M.n r c < M.data.size := by omega
+  refine ⟨{ M with data := M.data.set (Gen.idxN M.n r c) v hlt }, ?_, rfl, rfl, by simp⟩
+  simp [bind, Except.bind, aset, hlt, pure, Except.pure]
 
 end Kodama
